@@ -267,6 +267,14 @@ func c04aggregate(s c04setup, g Grouper, group []int) {
 func VX_C05_distinct() {
 	s := c04make()
 	var r QFrame
+	if vx.HasParam("warm") {
+		// an earlier call on the same columns with the other Null setting (and a GroupBy) must not
+		// influence this one (anything remembered per column between calls)
+		w := s.f.Distinct(groupby.Columns(s.knames...), groupby.Null(!s.nullEq))
+		vx.Assume(w.Err == nil)
+		g := s.f.GroupBy(groupby.Columns(s.knames...), groupby.Null(!s.nullEq))
+		vx.Assume(g.Err == nil)
+	}
 	if vx.ParamStr("cols") == "all" {
 		// no columns given: all columns are the key
 		r = s.f.Select(s.knames...).Distinct(groupby.Null(s.nullEq))
